@@ -168,12 +168,6 @@ func checkReach(reach Term, prelude string, opts solveOpts, idx int) string {
 	os.WriteFile(file, []byte(q), 0o644)
 	defer os.Remove(file)
 	v, _, _ := runSolver(solvers[0], file, opts.timeoutS)
-	if v != "sat" && v != "unsat" {
-		v2, _, _ := runSolver(solvers[1], file, opts.timeoutS)
-		if v2 == "sat" || v2 == "unsat" {
-			return v2
-		}
-	}
 	return v
 }
 
